@@ -214,6 +214,7 @@ type node struct {
 	mu      sync.Mutex
 	entries [][]byte
 	buf     []byte
+	dead    bool
 }
 
 func newNode(cfg *config.Config, cluster bool) *node {
@@ -246,31 +247,49 @@ func respRequest(cmd [][]byte) []byte {
 	return b.Bytes()
 }
 
-// exec returns the reply bytes as a client would receive them ("!PANIC" when the standalone
-// executor panicked; the cluster path cannot be recovered: the process dies like the server).
-func (n *node) exec(cmd [][]byte) (wire []byte, panicked bool) {
-	if !n.cluster {
-		defer func() {
-			if e := recover(); e != nil {
-				wire, panicked = nil, true
-				if os.Getenv("VERIF_DEBUG") != "" {
-					fmt.Fprintln(os.Stderr, "panic:", e)
+// exec returns the reply bytes as a client would receive them. status: "" ok, "!PANIC" when the
+// standalone executor panicked (recovered here; the server itself would die), "!HANG" when the
+// step did not finish within 60 s of (virtual) time -- an executor that returned without
+// releasing a lock, a lost reply. After a hang the node is unusable.
+func (n *node) exec(cmd [][]byte) (wire []byte, status string) {
+	type result struct {
+		wire   []byte
+		status string
+	}
+	done := make(chan result, 1)
+	go func() {
+		if !n.cluster {
+			defer func() {
+				if e := recover(); e != nil {
+					if os.Getenv("VERIF_DEBUG") != "" {
+						fmt.Fprintln(os.Stderr, "panic:", e)
+					}
+					done <- result{nil, "!PANIC"}
 				}
-			}
-		}()
-		// the connection loop of server.Handle: per-connection view is the manager itself here
-		// (one connection per case), nil result -> "unknown error"
-		return server.VerifReplyBytes(n.mgr.ExecCommand(context.Background(), cmd, nil)), false
+			}()
+			// the connection loop of server.Handle: nil result -> "unknown error"
+			done <- result{server.VerifReplyBytes(n.mgr.ExecCommand(context.Background(), cmd, nil)), ""}
+			return
+		}
+		if _, err := n.cli.Write(respRequest(cmd)); err != nil {
+			done <- result{[]byte("!WRITE " + err.Error()), ""}
+			return
+		}
+		// net.Pipe: one Read receives one whole Write of the peer (the buffer is larger than any reply)
+		k, err := n.cli.Read(n.buf)
+		if err != nil {
+			done <- result{[]byte("!READ " + err.Error()), ""}
+			return
+		}
+		done <- result{append([]byte{}, n.buf[:k]...), ""}
+	}()
+	select {
+	case r := <-done:
+		return r.wire, r.status
+	case <-time.After(60 * time.Second):
+		n.dead = true
+		return nil, "!HANG"
 	}
-	if _, err := n.cli.Write(respRequest(cmd)); err != nil {
-		return []byte("!WRITE " + err.Error()), false
-	}
-	// net.Pipe: one Read receives one whole Write of the peer (the buffer is larger than any reply)
-	k, err := n.cli.Read(n.buf)
-	if err != nil {
-		return []byte("!READ " + err.Error()), false
-	}
-	return append([]byte{}, n.buf[:k]...), false
 }
 
 func (n *node) drainEntries() [][]byte {
@@ -332,8 +351,9 @@ func c14RunCmd(args []string) error {
 			nd = newNode(setupServer(dbs, args[3]), cluster)
 			caseName, step = fs[1], 0
 			fmt.Fprintf(w, "CASE %s %d\n", fs[1], dbs)
+			progress.Truncate(0)
 			progress.Seek(0, 0)
-			fmt.Fprintf(progress, "%s\n", fs[1])
+			fmt.Fprintf(progress, "%s 0\n", fs[1])
 		case "C":
 			ms, _ := strconv.Atoi(fs[2])
 			if ms > 0 {
@@ -346,16 +366,21 @@ func c14RunCmd(args []string) error {
 			step++
 			// every intermediate result is on disk before a step that may kill the process
 			w.Flush()
+			progress.Truncate(0)
+			progress.Seek(0, 0)
 			fmt.Fprintf(progress, "%s %d\n", caseName, step)
 			now := time.Now()
-			wire, panicked := nd.exec(cmd)
 			name := ""
 			if len(cmd) > 0 {
 				name = strings.ToLower(string(cmd[0]))
 			}
-			out := "!PANIC"
-			if !panicked {
-				out = canonForCmd(name, canonFromWire(wire))
+			var wire []byte
+			out := "!SKIP"
+			if !nd.dead {
+				wire, out = nd.exec(cmd)
+				if out == "" {
+					out = canonForCmd(name, canonFromWire(wire))
+				}
 			}
 			fmt.Fprintf(w, "S %d %d %s %s | %s\n", now.Unix(), now.UnixMilli(), fs[1], strings.Join(fs[3:], " "), out)
 			fmt.Fprintf(ww, "W %s %d %s %s\n", caseName, step, hx([]byte(name)), hx(wire))
@@ -365,6 +390,9 @@ func c14RunCmd(args []string) error {
 				}
 			}
 		case "DUMP":
+			if nd.dead {
+				continue
+			}
 			now := time.Now().Unix()
 			for i, d := range nd.mgr.DBs {
 				for _, l := range memdb.VerifDump(d, now) {
